@@ -4,6 +4,7 @@
    the Rijndael / Dickson S-box and MULx), 3.4 (LFSR, FSM, clocking), 4.1 (initialisation),
    4.2 (keystream).  A 32-bit word is <<b0,b1,b2,b3>>, b0 the most significant octet. *)
 EXTENDS Integers, Sequences, Bitwise, CryptoTables
+LOCAL INSTANCE SequencesExt       \* FoldLeft
 XorW(a, b) == <<a[1] ^^ b[1], a[2] ^^ b[2], a[3] ^^ b[3], a[4] ^^ b[4]>>
 AddW(a, b) == LET s4 == a[4] + b[4]
                   s3 == a[3] + b[3] + (s4 \div 256)
@@ -42,9 +43,8 @@ InitState(k, iv) ==
             XorW(k[1], iv[2]), k[2], k[3], XorW(k[4], iv[1]) >>,
    r |-> << ZeroW, ZeroW, ZeroW >>]
 Ready(k, iv) == Clock(Iter(InitState(k, iv), 32, TRUE), FALSE)       \* 32 init clocks, one discarded keystream clock
-RECURSIVE Gen(_,_,_)
-Gen(st, n, acc) == IF n = 0 THEN acc
-                   ELSE Gen(Clock(st, FALSE), n - 1, Append(acc, XorW(FsmOut(st), st.l[1])))
-\* 4.2: n keystream words z_1..z_n
-KeyStream(k, iv, n) == Gen(Ready(k, iv), n, <<>>)
+\* 4.2: n keystream words z_1..z_n: z_t = F xor s0, then clock in keystream mode
+KeyStream(k, iv, n) ==
+  FoldLeft(LAMBDA a, t : [st |-> Clock(a.st, FALSE), out |-> Append(a.out, XorW(FsmOut(a.st), a.st.l[1]))],
+           [st |-> Ready(k, iv), out |-> <<>>], SubSeq([t \in 1..n |-> t], 1, n)).out
 =============================================================================
